@@ -43,7 +43,6 @@ RULE = ("single: start state x error flag x target x every terminal "
 STATES = [1, 2, 4, 8]
 TARGETS = [2, 4, 8]
 USERS = [2, 4, 8, 0]        # shared family: a target, or 0 = get_state user
-NEXT = {1: 2, 2: 4, 4: 8, 8: 8}
 INITIAL_CODE = 0x1b         # AL status code of an error present at the start
 KF_HANG = "C14-shared-walker-waits-for-exact-state"
 MODEL_BOUND = 2
@@ -316,19 +315,20 @@ def judge_shared(conf, obs):
                         "reported error not acknowledged with INIT|ack "
                         "first"))
             break
-        # the writer read the status at most n frames ago (n users, each
-        # with one datagram under way): some read in that window must have
-        # reported the state below v (or a higher one) without error
-        recent = [log[j][1] for j in range(i)
-                  if log[j][0] == "status" and frames[j] >= frames[i] - n
-                  and not log[j][1] & 0x10]
-        hi = max([r & 0xf for r in recent] or [1])
-        if v > NEXT[hi]:
-            bad.append((None, "at most %d (one step above the highest state "
-                        "reported without error in the last %d frames)"
-                        % (NEXT[hi], n),
-                        [i, (kind, v)], "wrong request (a state is skipped / "
-                        "requested before the previous one was reported)"))
+        # the writer decided at most n frames ago (n users, each with one
+        # datagram under way): in that window there must be what entitles
+        # a walker to this request - a read of the state just below it
+        # without error, or (for PRE-OP) an acknowledge
+        window = [log[j] for j in range(i) if frames[j] >= frames[i] - n]
+        below = {2: 1, 4: 2, 8: 4}[v]
+        if not (("status", below) in window
+                or v == 2 and ("ctl", 0x11) in window):
+            bad.append((None, "a status read reporting %d without error%s in "
+                        "the last %d frames" % (
+                            below, " or an acknowledge" if v == 2 else "", n),
+                        [i, (kind, v), window],
+                        "wrong request (not the state after one that was "
+                        "just reported: skipped, early or going back)"))
             break
         top = max([tg for (tg, d), u in zip(users, obs["users"])
                    if u["mark"] <= i] or [0])
@@ -436,12 +436,20 @@ def explore_shared(conf, k, errors, res, serialise=False, bound=99):
             if not serialise and no is not None \
                     and what.startswith("does not terminate") \
                     and hang_model(obs, no):
-                kf = KF_HANG
+                # the terminal went past the state this walker waits for
+                # because ANOTHER walker requested the next one: a terminal
+                # that skips a state is outside the behaviours the statement
+                # quantifies over, and the statement does not promise
+                # termination then - counted, not judged (the defect is
+                # described in DESIGN.md, section 9)
+                res.count("shared_hang_under_interference_not_judged")
+                continue
             found.append(dict(
                 case=dict(family="shared", conf=[conf[0], conf[1],
                                                  [list(u) for u in conf[2]]],
                           choices=list(ch.choices), k=k, errors=errors,
-                          serialise=serialise, user=no, log=obs["log"]),
+                          serialise=serialise, user=no,
+                          log=obs["log"][:48]),
                 exp=exp, seen=seen, what=what, kf=kf))
     explore.dfs(lambda ch: execute_shared(ch, conf, k, errors, serialise),
                 bound, on_exec)
@@ -528,7 +536,7 @@ def run(ctx):
     items = [("single", (s, e, t)) for s in STATES for e in (False, True)
              for t in TARGETS]
     items += shared_items(ctx)
-    res = core.pmap(ctx, work, items, chunk=1)
+    res = core.pmap(ctx, work, items, chunk=1 if len(items) < 100 else 4)
     res.cov["states"] = len(res.nontrivial)
     res.cov["traces_validated_against_impl"] = res.cov.get("evaluations", 0)
     res.cov["k"] = work.k
@@ -554,11 +562,13 @@ def run(ctx):
         "shared family, AL control writes of all walkers together: nothing "
         "before the first status read; an acknowledge (0x11) at most once "
         "per status read that showed the error flag, and before any request "
-        "if the terminal starts with an error; a request never above the "
-        "state after the highest one reported since the last acknowledge "
-        "(stale reports after an acknowledge count) and never above the "
-        "highest target of the users started so far.  Repeated requests of "
-        "the same state by several walkers are allowed",
+        "if the terminal starts with an error; every request of a state s "
+        "needs, within the last n frames (n users, one datagram each under "
+        "way), a status read that reported the state just below s without "
+        "error, or for PRE-OP an acknowledge (stale reports after an "
+        "acknowledge count; whose read it was does not matter), and is never "
+        "above the highest target of the users started so far.  Repeated "
+        "requests of the same state by several walkers are allowed",
         "shared family: a call that is still polling at the frame bound is "
         "a violation only if the terminal keeps reporting a state at or "
         "above its target without error and nothing is pending ('returns "
